@@ -55,8 +55,9 @@ def gen_cases(tier, seed):
             cases.append({"model": m, "grid": g, "method": C.METHODS_1D[i % 6], "levels": 2 if not thorough else 3,
                           "mode": ["fixed", "jumptimes", "maxstep"][i % 3], "seed": int(rng.integers(2**31))})
     # the SDE coupling built on the 1-d coupling: coarse driver drift / diffusion of level l-1 over repeated refinements
-    for j in range(4 if not thorough else 24):
-        cases.append({"sde": True, "model": W.gen_model_spec(rng, ["CGMY", "HEM", "VG", "MERTON"][j % 4], exp=False), "levels": 3,
+    for j in range(5 if not thorough else 25):
+        # (the first driver has jumps of infinite variation: the Brownian scaling changes from level to level)
+        cases.append({"sde": True, "model": W.gen_model_spec(rng, ["CGMY", "HEM", "VG", "MERTON", "CGMY"][j % 5], "1<y<2" if j % 5 == 0 else None, exp=False), "levels": 3,
                       "grid": {"ctor": "fixed", "dim": 1, "h": W.r6(rng.uniform(0.05, 0.15)), "n": int(rng.choice([5, 7, 9]))}, "seed": int(rng.integers(2**31))})
     for j in range(8 if not thorough else 40):
         dim = 2 if j % 4 else 3
@@ -178,8 +179,15 @@ def _run_sde(case, R):
             R.violation("sde-coupling-next-level-raises", f"{label}: level {level}: {type(exc).__name__}: {exc}", wit)
             return
         want_c, want_sig_c = reference(level - 1)
-        want_f, _ = reference(level)
+        want_f, want_sig_f = reference(level)
         R.hit("sde_coupling_levels")
+        drv = cp.driver_coupling_process
+        got_sig_f, got_sig_c = float(drv.equivalent_diffusion_coefficient_fine), float(drv.equivalent_diffusion_coefficient_coarse)
+        if not (abs(got_sig_f - want_sig_f) <= 1e-10 * (1 + want_sig_f) and abs(got_sig_c - want_sig_c) <= 1e-10 * (1 + want_sig_c)):
+            R.violation("sde-coupling-diffusion-coefficients-not-those-of-the-levels", f"{label}: SDE coupling at level {level}: the driver coupling scales the Brownian increments "
+                        f"of (fine, coarse) by ({got_sig_f!r}, {got_sig_c!r}); chains built apart at levels {level} and {level - 1} have equivalent diffusion "
+                        f"coefficients ({want_sig_f!r}, {want_sig_c!r})", wit)
+            return
         got_c = float(np.asarray(cp.mc_drift_2h, dtype=float).reshape(-1)[0])
         got_f = float(np.asarray(cp.mc_drift_h, dtype=float).reshape(-1)[0])
         if not (abs(got_c - want_c) <= 1e-10 * (1 + abs(want_c)) and abs(got_f - want_f) <= 1e-10 * (1 + abs(want_f))):
